@@ -1,5 +1,304 @@
 package main
 
-// placeholder until the mutation operators are written
-func c14Schemas(thorough bool) (*SPkg, []*Schema) { return nil, nil }
-func c16Schemas(thorough bool) (*SPkg, []*Schema) { return nil, nil }
+import (
+	"fmt"
+	"strings"
+)
+
+// C14 — compiler output always compiles; invalid schemas are rejected cleanly.
+//
+// The valid C05 schemas (must generate and build) plus one mutation operator per language rule.
+
+type c14tmpl struct {
+	b                       *builder
+	e, s, m, req, resp, svc *SDef
+	p                       *SPkg
+}
+
+// template builds a fresh valid package: enum E, struct S, messages M/Req/Resp, service Svc.
+func (b *builder) template() *c14tmpl {
+	t := &c14tmpl{b: b}
+	t.e = &SDef{Name: "E", Type: "enum", Values: []SEnumVal{{"ZERO", "0"}, {"ONE", "1"}}}
+	t.s = &SDef{Name: "S", Type: "struct", Fields: []SField{{Name: "x", Kind: "int32"}, {Name: "y", Kind: "string"}}}
+	t.req = &SDef{Name: "Req", Type: "message", Fields: []SField{{Name: "q", Tag: 1, Kind: "string"}}}
+	t.resp = &SDef{Name: "Resp", Type: "message", Fields: []SField{{Name: "r", Tag: 1, Kind: "string"}}}
+	t.svc = &SDef{Name: "Svc", Type: "service", Methods: []SMethod{{"call", "(Req) Resp"}, {"ow", "(Req) oneway"}, {"ch", "(Req) (<-Req, Resp->) Resp"}}}
+	fields := []SField{{Name: "a", Tag: 1, Kind: "int32"}, {Name: "b", Tag: 2, Kind: "string"}, {Name: "e", Tag: 3, Kind: "enum", Ref: t.e}, {Name: "s", Tag: 4, Kind: "struct", Ref: t.s}, {Name: "l", Tag: 5, Kind: "int64", List: true}}
+	t.p = b.msgPkg(fields, t.e, t.s, t.req, t.resp, t.svc)
+	t.m = t.p.Defs[len(t.p.Defs)-1]
+	return t
+}
+
+func c14Schemas(thorough bool) (*SPkg, []*Schema) {
+	base, valid := c05Schemas(thorough)
+	b := &builder{base: base, n: 5000}
+	mut := func(rule, mention, expect string, f func(t *c14tmpl) []*SPkg) {
+		t := b.template()
+		pk := f(t)
+		if pk == nil {
+			pk = []*SPkg{t.p}
+		}
+		sc := b.add("mutant: "+rule, expect, pk...)
+		sc.Rule, sc.Mention = rule, mention
+	}
+	// sanity: the unmutated template is valid
+	mut("none (template itself)", "", "ok", func(t *c14tmpl) []*SPkg { return nil })
+
+	mut("duplicate definition name", "M", "reject", func(t *c14tmpl) []*SPkg {
+		d := &SDef{Name: "M", Type: "message", Pkg: t.p, Fields: []SField{{Name: "z", Tag: 1, Kind: "bool"}}}
+		t.p.Defs = append(t.p.Defs, d)
+		return nil
+	})
+	mut("duplicate definition name across kinds (enum vs struct)", "E", "reject", func(t *c14tmpl) []*SPkg {
+		t.p.Defs = append(t.p.Defs, &SDef{Name: "E", Type: "struct", Pkg: t.p, Fields: []SField{{Name: "z", Kind: "bool"}}})
+		return nil
+	})
+	mut("duplicate field name", "a", "reject", func(t *c14tmpl) []*SPkg {
+		t.m.Fields = append(t.m.Fields, SField{Name: "a", Tag: 9, Kind: "bool"})
+		return nil
+	})
+	mut("duplicate struct field name", "x", "reject", func(t *c14tmpl) []*SPkg {
+		t.s.Fields = append(t.s.Fields, SField{Name: "x", Kind: "bool"})
+		return nil
+	})
+	mut("duplicate tag", "2", "reject", func(t *c14tmpl) []*SPkg {
+		t.m.Fields = append(t.m.Fields, SField{Name: "dup", Tag: 2, Kind: "bool"})
+		return nil
+	})
+	mut("duplicate enum value name", "ONE", "reject", func(t *c14tmpl) []*SPkg {
+		t.e.Values = append(t.e.Values, SEnumVal{"ONE", "7"})
+		return nil
+	})
+	mut("duplicate enum number", "1", "reject", func(t *c14tmpl) []*SPkg {
+		t.e.Values = append(t.e.Values, SEnumVal{"UNO", "1"})
+		return nil
+	})
+	mut("duplicate import", "base0", "reject", func(t *c14tmpl) []*SPkg {
+		t.p.Imports = []SImport{{Pkg: b.base}, {Pkg: b.base}}
+		return []*SPkg{b.base, t.p}
+	})
+	mut("duplicate import alias", "q", "reject", func(t *c14tmpl) []*SPkg {
+		other := &SPkg{Key: b.key("o")}
+		other.Defs = []*SDef{{Name: "X", Type: "message", Pkg: other, Fields: []SField{{Name: "v", Tag: 1, Kind: "bool"}}}}
+		t.p.Imports = []SImport{{Pkg: b.base, Alias: "q"}, {Pkg: other, Alias: "q"}}
+		return []*SPkg{b.base, other, t.p}
+	})
+	mut("duplicate option", "go_package", "reject", func(t *c14tmpl) []*SPkg {
+		t.p.NoOpt = true
+		t.p.RawTail = ""
+		t.p.Defs[0].File = 0
+		t.p.Files = 1
+		t.p.RawTail = ""
+		// options block with the same option twice is rendered through a raw header definition
+		t.p.Defs = append([]*SDef{{Name: "", Type: "rawheader"}}, t.p.Defs...)
+		return nil
+	})
+	mut("zero tag", "a", "reject", func(t *c14tmpl) []*SPkg { t.m.Fields[0].Tag = 0; return nil })
+	mut("tag 65536 (beyond uint16)", "b", "reject", func(t *c14tmpl) []*SPkg { t.m.Fields[1].Tag = 65536; return nil })
+	mut("tag 2^31", "b", "reject", func(t *c14tmpl) []*SPkg { t.m.Fields[1].Tag = 1 << 31; return nil })
+	mut("zero tag in method arguments", "q", "reject", func(t *c14tmpl) []*SPkg {
+		t.svc.Methods = append(t.svc.Methods, SMethod{"args", "(q string 0) (r string 1)"})
+		return nil
+	})
+	mut("duplicate tag in method results", "2", "reject", func(t *c14tmpl) []*SPkg {
+		t.svc.Methods = append(t.svc.Methods, SMethod{"res", "(q string 1) (r string 2, r2 string 2)"})
+		return nil
+	})
+	mut("enum value beyond int32", "HUGE", "reject", func(t *c14tmpl) []*SPkg {
+		t.e.Values = append(t.e.Values, SEnumVal{"HUGE", "2147483648"})
+		return nil
+	})
+	mut("enum value beyond int64", "99999999999999999999", "reject", func(t *c14tmpl) []*SPkg {
+		t.e.Values = append(t.e.Values, SEnumVal{"HUGE", "99999999999999999999"})
+		return nil
+	})
+	mut("missing zero enum value", "E", "reject", func(t *c14tmpl) []*SPkg { t.e.Values = t.e.Values[1:]; return nil })
+	mut("negative enum value", "", "either", func(t *c14tmpl) []*SPkg {
+		t.e.Values = append(t.e.Values, SEnumVal{"NEG", "-1"})
+		return nil
+	})
+	mut("unknown field type", "Missing", "reject", func(t *c14tmpl) []*SPkg {
+		t.m.Fields = append(t.m.Fields, SField{Name: "u", Tag: 9, Raw: "Missing"})
+		return nil
+	})
+	mut("unknown list element type", "Missing", "reject", func(t *c14tmpl) []*SPkg {
+		t.m.Fields = append(t.m.Fields, SField{Name: "u", Tag: 9, Raw: "[]Missing"})
+		return nil
+	})
+	mut("unknown imported type", "Nope", "reject", func(t *c14tmpl) []*SPkg {
+		t.p.Imports = []SImport{{Pkg: b.base}}
+		t.m.Fields = append(t.m.Fields, SField{Name: "u", Tag: 9, Raw: "base0.Nope"})
+		return []*SPkg{b.base, t.p}
+	})
+	mut("type of an unimported package", "nopkg", "reject", func(t *c14tmpl) []*SPkg {
+		t.m.Fields = append(t.m.Fields, SField{Name: "u", Tag: 9, Raw: "nopkg.X"})
+		return nil
+	})
+	mut("service-typed field", "svcf", "reject", func(t *c14tmpl) []*SPkg {
+		t.m.Fields = append(t.m.Fields, SField{Name: "svcf", Tag: 9, Kind: "svc", Ref: t.svc})
+		return nil
+	})
+	mut("list of services", "svcs", "reject", func(t *c14tmpl) []*SPkg {
+		t.m.Fields = append(t.m.Fields, SField{Name: "svcs", Tag: 9, Kind: "svc", Ref: t.svc, List: true})
+		return nil
+	})
+	mut("list of any", "anys", "either", func(t *c14tmpl) []*SPkg {
+		t.m.Fields = append(t.m.Fields, SField{Name: "anys", Tag: 9, Kind: "any", List: true})
+		return nil
+	})
+	mut("list of untyped message", "msgs", "either", func(t *c14tmpl) []*SPkg {
+		t.m.Fields = append(t.m.Fields, SField{Name: "msgs", Tag: 9, Kind: "anymsg", List: true})
+		return nil
+	})
+	for _, k := range []string{"any", "message", "[]int32", "Req", "Svc"} {
+		k := k
+		mut("struct field of non-value type "+k, "bad", "reject", func(t *c14tmpl) []*SPkg {
+			t.s.Fields = append(t.s.Fields, SField{Name: "bad", Raw: k})
+			return nil
+		})
+	}
+	mut("struct field of type bytes", "", "either", func(t *c14tmpl) []*SPkg {
+		t.s.Fields = append(t.s.Fields, SField{Name: "raw", Kind: "bytes"})
+		return nil
+	})
+	mut("self-containing struct", "S", "reject", func(t *c14tmpl) []*SPkg {
+		t.s.Fields = append(t.s.Fields, SField{Name: "self", Kind: "struct", Ref: t.s})
+		return nil
+	})
+	mut("mutually recursive structs", "S", "reject", func(t *c14tmpl) []*SPkg {
+		s2 := &SDef{Name: "S2", Type: "struct", Pkg: t.p, Fields: []SField{{Name: "back", Kind: "struct", Ref: t.s}}}
+		t.s.Fields = append(t.s.Fields, SField{Name: "fwd", Kind: "struct", Ref: s2})
+		t.p.Defs = append(t.p.Defs, s2)
+		return nil
+	})
+	mut("channel of scalar type (in)", "string", "reject", func(t *c14tmpl) []*SPkg {
+		t.svc.Methods = append(t.svc.Methods, SMethod{"badch", "(Req) (<-string) Resp"})
+		return nil
+	})
+	mut("channel of scalar type (out)", "int64", "reject", func(t *c14tmpl) []*SPkg {
+		t.svc.Methods = append(t.svc.Methods, SMethod{"badch", "(Req) (int64->) Resp"})
+		return nil
+	})
+	mut("channel of enum type", "E", "reject", func(t *c14tmpl) []*SPkg {
+		t.svc.Methods = append(t.svc.Methods, SMethod{"badch", "(Req) (<-E) Resp"})
+		return nil
+	})
+	mut("channel of list type", "", "reject", func(t *c14tmpl) []*SPkg {
+		t.svc.Methods = append(t.svc.Methods, SMethod{"badch", "(Req) (<-[]Req) Resp"})
+		return nil
+	})
+	mut("oneway with output", "", "reject", func(t *c14tmpl) []*SPkg {
+		t.svc.Methods = append(t.svc.Methods, SMethod{"bad", "(Req) oneway Resp"})
+		return nil
+	})
+	mut("oneway with channel", "", "reject", func(t *c14tmpl) []*SPkg {
+		t.svc.Methods = append(t.svc.Methods, SMethod{"bad", "(Req) (<-Req) oneway"})
+		return nil
+	})
+	mut("method input of scalar type", "bad", "reject", func(t *c14tmpl) []*SPkg {
+		t.svc.Methods = append(t.svc.Methods, SMethod{"bad", "(string) Resp"})
+		return nil
+	})
+	mut("method output of enum type", "bad", "reject", func(t *c14tmpl) []*SPkg {
+		t.svc.Methods = append(t.svc.Methods, SMethod{"bad", "(Req) E"})
+		return nil
+	})
+	mut("duplicate method name", "call", "reject", func(t *c14tmpl) []*SPkg {
+		t.svc.Methods = append(t.svc.Methods, SMethod{"call", "(Req) Resp"})
+		return nil
+	})
+	mut("subservice with a oneway method returned from a service", "", "either", func(t *c14tmpl) []*SPkg {
+		sub := &SDef{Name: "Sub", Type: "subservice", Pkg: t.p, Methods: []SMethod{{"fire", "(Req) oneway"}}}
+		t.p.Defs = append(t.p.Defs, sub)
+		t.svc.Methods = append(t.svc.Methods, SMethod{"sub", "() Sub"})
+		return nil
+	})
+	mut("subservice with a channel method", "", "either", func(t *c14tmpl) []*SPkg {
+		sub := &SDef{Name: "Sub", Type: "subservice", Pkg: t.p, Methods: []SMethod{{"stream", "(Req) (<-Req) Resp"}}}
+		t.p.Defs = append(t.p.Defs, sub)
+		t.svc.Methods = append(t.svc.Methods, SMethod{"sub", "() Sub"})
+		return nil
+	})
+	mut("service method returning a (non-sub) service", "Svc", "reject", func(t *c14tmpl) []*SPkg {
+		t.svc.Methods = append(t.svc.Methods, SMethod{"again", "() Svc"})
+		return nil
+	})
+	mut("missing import", "nowhere", "reject", func(t *c14tmpl) []*SPkg {
+		t.p.Imports = []SImport{{ID: "nowhere"}}
+		return nil
+	})
+	mut("self import", "", "reject", func(t *c14tmpl) []*SPkg {
+		t.p.Imports = []SImport{{ID: t.p.Key}}
+		return nil
+	})
+	mut("circular import", "", "reject", func(t *c14tmpl) []*SPkg {
+		other := &SPkg{Key: b.key("c")}
+		other.Defs = []*SDef{{Name: "X", Type: "message", Pkg: other, Fields: []SField{{Name: "v", Tag: 1, Kind: "bool"}}}}
+		other.Imports = []SImport{{ID: t.p.Key}}
+		t.p.Imports = []SImport{{Pkg: other}}
+		// the importing package is compiled first and pulls the other one in
+		return []*SPkg{t.p, other}
+	})
+	mut("empty package (no definitions)", "", "either", func(t *c14tmpl) []*SPkg {
+		t.p.Defs = nil
+		return nil
+	})
+	mut("keyword as definition name", "", "reject", func(t *c14tmpl) []*SPkg {
+		t.p.RawTail = "message import { a int32 1; }\n"
+		return nil
+	})
+	mut("lexical error: unterminated string in options", "", "reject", func(t *c14tmpl) []*SPkg {
+		t.p.RawTail = "options (\n  x=\"abc\n)\n"
+		return nil
+	})
+	mut("lexical error: invalid character", "", "reject", func(t *c14tmpl) []*SPkg {
+		t.p.RawTail = "message Z { a int32 1; } @\n"
+		return nil
+	})
+	mut("field named like a generated method (clone)", "", "either", func(t *c14tmpl) []*SPkg {
+		t.m.Fields = append(t.m.Fields, SField{Name: "clone", Tag: 9, Kind: "bool"})
+		return nil
+	})
+	mut("two fields mapping to one Go identifier (a_b / aB)", "", "either", func(t *c14tmpl) []*SPkg {
+		t.m.Fields = append(t.m.Fields, SField{Name: "x_y", Tag: 9, Kind: "bool"}, SField{Name: "X_Y", Tag: 10, Kind: "bool"})
+		return nil
+	})
+	// token-level edits of the template source pushed through the whole pipeline: every accepted text must build
+	{
+		t := b.template()
+		var sb strings.Builder
+		fmt.Fprintf(&sb, "options (\n go_package=%q\n)\n", "lcmod/out/KEY")
+		for _, d := range t.p.Defs {
+			sb.WriteString(d.text())
+		}
+		lx, _ := lex(sb.String())
+		toks := make([]string, len(lx))
+		for i, l := range lx {
+			toks[i] = l.text
+		}
+		repl := []string{"0", "65536", "0x10", "any", "message", "E", "S", "Svc", "string", "[", "]", ";", "oneway", "\"abc"}
+		step := 4
+		if thorough {
+			step = 1
+		}
+		emit := func(ts []string, what string) {
+			p := &SPkg{Key: b.key("t")}
+			p.RawFile = strings.ReplaceAll(strings.Join(ts, "\n"), "lcmod/out/KEY", "lcmod/out/"+p.Key)
+			sc := b.add("token edit: "+what, "either", p)
+			sc.Rule = "token-level edit of a valid schema"
+		}
+		for i := 8; i < len(toks); i += step { // tokens after the options block
+			emit(append(append([]string{}, toks[:i]...), toks[i+1:]...), fmt.Sprintf("token %d (%s) deleted", i, toks[i]))
+			emit(append(append(append([]string{}, toks[:i+1]...), toks[i]), toks[i+1:]...), fmt.Sprintf("token %d (%s) duplicated", i, toks[i]))
+			for ri, r := range repl {
+				if !thorough && (i/step+ri)%3 != 0 {
+					continue
+				}
+				rp := append([]string{}, toks...)
+				rp[i] = r
+				emit(rp, fmt.Sprintf("token %d (%s) replaced by %s", i, toks[i], r))
+			}
+		}
+	}
+	return base, append(valid, b.out...)
+}
